@@ -255,6 +255,19 @@ def rule_cases():
                  'SELECT i PIVOT BY 1', 'SELECT i PIVOT BY 1, 2, 3', 'SELECT i PIVOT BY i + 1, 2', 'SELECT i GROUP BY 1 HAVING',
                  'SELECT 1 < 2 < 3', 'SELECT i = j = 1', 'SELECT NOT', 'SELECT i AND', 'SELECT - ', 'SELECT + + i', 'SELECT i SELECT j'):
         add('syntax', text)
+    # the same rules hold over the columns of a FROM-subquery (another table and column class)
+    sub = '(SELECT rid, i, j, d, s, t, b, o, st, di FROM #m)'
+    skip = ('syntax', 'unknown-table', 'aggregate-in-from', 'open-after-close', 'invalid-date', 'oversized-number', 'clean', 'placeholders', 'in-right-operand')
+    nth = 0
+    for rule, text, params in list(out):
+        kind = rule.split(':')[0]
+        if kind in skip or text.count(' FROM #m') != 1 or text in SPANS:
+            continue
+        if kind == 'ill-typed':
+            nth += 1
+            if nth % 25:
+                continue
+        add(rule + ':subquery', text.replace(' FROM #m', ' FROM ' + sub), params)
     return out
 
 
